@@ -32,10 +32,11 @@ CHECKS["C02"] = dict(
          "heights (unbounded page sizes) covers [0,total) once; segment rendering between group boundaries (symbolic group "
          "values incl. dividers) emits every page row once in order with its page-relative offset; boundary detection; "
          "column removal; null/str display; and the section glue that hands the strategy the original frame and the removed "
-         "column indices.",
-    note="Trusted: z3/CrossHair; FakeFrame/MetaFrame standing in for polars frames (operations they do not model make the "
-         "obligation inconclusive, never violated); TextContent.model_construct for pydantic. Outside: the polars [min,max] "
-         "slice inside paginate(), multi-section concatenation, shapes beyond the bounds.",
+         "column indices, the caller's rows in the caller's order; the three real paginate() methods on the polars model; "
+         "conversion-off cells verbatim whatever was converted earlier in the process.",
+    note="Trusted: z3/CrossHair; FakeFrame/MetaFrame/vf.minipl standing in for polars frames (operations they do not model make "
+         "the obligation inconclusive, never violated); TextContent.model_construct for pydantic. Outside: multi-section "
+         "concatenation beyond section order, shapes beyond the bounds.",
     design="4/C02", technique=TECH_A)
 CHECKS["C03"] = dict(
     text="Budget decided on the real kernels: _assign_pages with unbounded symbolic heights/nrow/reserved/continuation rows "
@@ -89,7 +90,9 @@ CHECKS["C14"] = dict(
     text="Purity decided by one inductive step from an ARBITRARY pre-state instead of exploring histories: for any residual "
          "colour context the three real encode paths emit the same indices as from a clean state; explicit two-step "
          "histories with a failing first encode; the class-level registry from any pre-registry; no writes into component "
-         "objects during encode; defaults written at construction stay in the document's own copies.",
+         "objects during an encode that returns or raises; defaults written at construction stay in the document's own copies; "
+         "the real footnote/source encoders and header rendering leave their components untouched; width measurement and "
+         "validation carry nothing from call to call.",
     note="Trusted: as C12; namespaces standing for pydantic components in the encode-path obligations (real pydantic "
          "objects in O5). Byte equality of whole documents across histories is covered by concrete witnesses only.",
     design="4/C14", technique=TECH_A)
@@ -97,25 +100,29 @@ CHECKS["C15"] = dict(
     text="Other threads modelled as a nondeterministic environment: the solver chooses the call boundary k of thread A's "
          "encode at which thread B - on a real second thread, so thread/context-local state behaves as it really does - "
          "starts or completes its own encode with an arbitrary palette; A's indices and table must equal its sequential "
-         "result for every k and palette (quick: one preemption; thorough: also two). A census of process-global mutable "
-         "state validates that nothing else is shared.",
-    note="Trusted: as C12; preemption modelled at the granularity of calls into the colour API; 2 threads. Outside: races "
-         "inside polars/pydantic-core, more preemptions, free-threaded builds.",
+         "result for every k and palette (quick: one preemption; thorough: also two). Caller-owned component objects that may be "
+         "shared with documents other threads encode hold their original values at every call boundary; the width-measurement "
+         "wrapper gives both threads their sequential results for every placement of the other thread's measurement. A census of "
+         "process-global mutable state validates that nothing else is shared.",
+    note="Trusted: as C12; preemption modelled at the granularity of calls into the colour API / into rtflite.strwidth; 2 "
+         "threads. Outside: races inside polars/pydantic-core, more preemptions, free-threaded builds.",
     design="4/C15", technique=TECH_A + "; schedule (preemption point, other thread's action) as symbolic variables")
 
 CHECKS["C16"] = dict(
     text="Byte-level figure kernels run symbolically on the real code: hex payload of arbitrary byte strings and across the "
          "80-character line boundary, PNG/JPEG dimension parsing with symbolic headers and symbolic preceding marker "
          "segments, format detection, positional size lookup with last-value reuse through the real figure-only encoder, the "
-         "picture group, and - bit-exact doubles via engine B - goal sizes within one twip of inches*1440.",
-    note="Trusted: z3/CrossHair bytes/int models, engine-B tracer (validated each run). Outside: reading the file, MIME "
-         "fallback, long payloads (covered by the wrapping obligations), caption placement (C06).",
+         "picture group, placement of title/footnote/source around 1..3 figures, a file read twice with its content changed in "
+         "between, and - bit-exact doubles via engine B - goal sizes within one twip of inches*1440.",
+    note="Trusted: z3/CrossHair bytes/int models, engine-B tracer (validated each run), an in-memory file for the read-history "
+         "obligation. Outside: the operating system's open/read, MIME fallback, long payloads (covered by the wrapping obligations).",
     design="4/C16", technique=TECH_A + "; shadow-valued tracing into z3 QF_FP for the goal sizes")
 CHECKS["C17"] = dict(
     text="assemble_rtf executed symbolically over an in-memory file system whose files are arbitrary members of a line-class "
-         "grammar of rtflite output (symbolic font-table length, figure-style merged preamble, colour table, body unit classes "
+         "grammar of rtflite output (symbolic font-table length or the font table the code under test generates, figure-style merged preamble, colour table, body unit classes "
          "incl. multi-line groups, inputs listed twice): the written text is exactly the concatenation the statement describes "
-         "and one well-formed group; single input reproduced, empty list writes nothing, missing input raises before any write.",
+         "and one well-formed group; single input reproduced, empty list writes nothing, missing input raises before any write; a "
+         "second call after a file changed assembles the new content.",
     note="Trusted: the grammar G (validated against real rtf_encode output every run), in-memory open/exists. Outside: pages "
          "as read back by a reader (concrete witnesses), more than 3 inputs.",
     design="4/C17", technique=TECH_A)
@@ -150,9 +157,12 @@ CHECKS["C11"] = dict(
 CHECKS["C20"] = dict(
     text="Wrapper clauses only: with Pillow's measured length an arbitrary non-negative double, the px/in/mm results are exact "
          "conversions of one another and non-negative (bit-exact, congruence on the shared px/dpi term); font by number and by "
-         "name reach Pillow with the same font file, size and text; unsupported font or unit raises ValueError.",
-    note="The glyph-metric clauses (empty string, monotonicity, scaling, monospace advance) are facts about FreeType (C) and are "
-         "NOT claimed. Trusted: z3 QF_FP, proxy tracer, recording stub for Pillow.",
+         "name reach Pillow with the same font file, size and text; the string measured is exactly the caller's text (one symbolic "
+         "character after LaTeX-like, brace and trigger stems), measured once; the empty text gives 0; unsupported font or unit "
+         "raises ValueError also for the empty text; a measurement does not depend on the previous one.",
+    note="The glyph-metric clauses (monotonicity, scaling, monospace advance) are facts about FreeType (C) and are NOT claimed "
+         "beyond 'the wrapper hands the font exactly the caller's text, font file and size'. Trusted: z3 QF_FP, proxy tracer, "
+         "recording stub for Pillow.",
     design="4/C20", technique="shadow-valued tracing into z3 QF_FP; " + TECH_A)
 
 CHECKS["C09"] = dict(
@@ -160,7 +170,8 @@ CHECKS["C09"] = dict(
          "table shape up to 4x4 (no aliasing on update), the border and cell emitters with the width symbolic, "
          "TableAttributes._encode with recording constructors for scalar / per-column / full-matrix attributes of distinct "
          "markers and a symbolic segment offset (14 text attributes, alignment, border style/width/colour per side), attribute "
-         "slicing on column removal, and the per-page attribute rows across a page break.",
+         "slicing on column removal, the per-page attribute rows across a page break produced by each of the three real strategies "
+         "(scalar, vector, matrix and short recycled patterns), and the border colour index following the current document.",
     note="Trusted: z3/CrossHair; recording constructors standing for the pydantic Cell/Row/Border/TextContent; FakeFrame. "
          "Outside: tables larger than the stated shapes; composition of segment offsets with page re-basing.",
     design="4/C09", technique=TECH_A)
